@@ -145,12 +145,25 @@ def wrap_impure_func(func):
     return functools.update_wrapper(wrapper, func)
 
 
+def _not_finite2num(res):
+    # Infinite or undefined results are not Excel values (e.g., overflows).
+    if isinstance(res, (float, np.floating)):
+        if not np.isfinite(res):
+            return np.asarray([[Error.errors['#NUM!']]], object)
+    elif isinstance(res, np.ndarray) and res.dtype.kind == 'f':
+        b = ~np.isfinite(res)
+        if b.any():
+            res = res.astype(object).view(res.__class__)
+            res[b] = Error.errors['#NUM!']
+    return res
+
+
 # noinspection PyUnusedLocal
 def wrap_func(func, ranges=False):
     def wrapper(*args, **kwargs):
         # noinspection PyBroadException
         try:
-            return func(*args, **kwargs)
+            return _not_finite2num(func(*args, **kwargs))
         except FoundError as ex:
             return np.asarray([[ex.err]], object)
         except InvalidRangeError:
